@@ -353,7 +353,7 @@ def run_replay_source(hfile, hname, test_src, failing_descs, scratch, logdir, st
     tname = tname.group(1) if tname else 'kani_concrete_playback'
     outcomes = {}
     for prof in ('dev', 'release'):
-        cmd = ['cargo', 'kani', 'playback', '-Z', 'concrete-playback', '--features', FEATURES_REPLAY, '--', tname]
+        cmd = ['cargo', 'kani', 'playback', '-Z', 'concrete-playback', '--lib', '--features', FEATURES_REPLAY, '--', tname]
         lp = os.path.join(logdir, '%s.playback-%s.log' % (hname, prof))
         e = env_for(hd)
         e['CARGO_TARGET_DIR'] = os.path.join(scratch, 'replay-target-' + hname + prof)
@@ -380,7 +380,7 @@ def run_replay_source(hfile, hname, test_src, failing_descs, scratch, logdir, st
     shutil.rmtree(hd, ignore_errors=True)
     path = None
     if store:
-        rd = os.path.join(ROOT, 'replays')
+        rd = os.environ.get('VERIF_REPLAY_DIR', os.path.join(ROOT, 'replays'))
         os.makedirs(rd, exist_ok=True)
         path = os.path.join(rd, '%s.rs' % hname)
         with open(path, 'w') as f:
@@ -605,8 +605,9 @@ def check_property(prop, tier, seed, only=None):
             'wall_s': round(wall, 1),
             'violations': len(violations),
         }
-        os.makedirs(os.path.join(ROOT, 'evidence'), exist_ok=True)
-        with open(os.path.join(ROOT, 'evidence', prop + '.json'), 'w') as f:
+        evdir = os.environ.get('VERIF_EVIDENCE_DIR', os.path.join(ROOT, 'evidence'))
+        os.makedirs(evdir, exist_ok=True)
+        with open(os.path.join(evdir, prop + '.json'), 'w') as f:
             json.dump(ev, f, indent=1)
         log('== %s: obligations=%d discharged=%d harnesses=%d violations=%d inconclusive=%d known=%d wall=%.0fs exit=%d' % (
             prop, obligations, discharged, len(hs), len(violations), len(inconclusive), len(seen), wall, exit_code))
